@@ -51,6 +51,22 @@ Proof. exact sort_errors. Qed.
 Theorem C16_unique_spec : forall l, Forall wf l -> filter_unique l = first_occurrences veq [] l.
 Proof. exact unique_spec. Qed.
 
+(* group_by: the groups partition, keeping input order, the elements whose attribute is present
+   and not none; keys of different width / ownership that are equal share a group; an element
+   without the attribute, or with one that cannot be a key, makes the filter fail *)
+Theorem C16_group_by_spec : forall l path r, Forall wf l -> l <> [] -> filter_group_by l path = ROk r ->
+  exists g, r = VMap (map (fun kv => (fst kv, VArr (snd kv))) g) /\
+    kwf g /\ kdist g /\
+    (forall k vs, In (k, vs) g -> vs <> [] /\ vs = filter (in_group path k) l) /\
+    (forall v k', In v l -> gkey path v = Some k' ->
+       exists k vs, In (k, vs) g /\ key_eq k k' = true /\ In v vs) /\
+    Forall (fun v => gok path v = true) l.
+Proof. exact group_by_spec. Qed.
+
+Theorem C16_group_by_errors : forall l path, (exists v, In v l /\ gok path v = false) ->
+  filter_group_by l path = RErr ErrMsg.
+Proof. exact group_by_errors. Qed.
+
 (* first / last / nth / length / reverse agree with the list functions and with one another *)
 Theorem C16_access_consistent : forall l : list value, Z.of_nat (length l) < two64 ->
   filter_length (VArr l) = ROk (VInt U64 (Z.of_nat (length l))) /\
@@ -100,6 +116,7 @@ Print Assumptions C16_sort_spec.
 Print Assumptions C16_sort_rejects_incomparable.
 Print Assumptions C16_unique_spec.
 Print Assumptions C16_split_join_id.
+Print Assumptions C16_group_by_spec.
 
 (* non-vacuity *)
 Example C16_ex_sort :
@@ -113,6 +130,11 @@ Proof. vm_compute. reflexivity. Qed.
 Example C16_ex_unique_maps : filter_unique [d2_m1; d2_m2; d2_m1] = [d2_m1; d2_m2].
 Proof. vm_compute. reflexivity. Qed.
 Example C16_ex_unique_arrays : filter_unique [d2_a1; d2_a2; d2_a3] = [d2_a1; d2_a2; d2_a3].
+Proof. vm_compute. reflexivity. Qed.
+Example C16_ex_group_by :
+  filter_group_by [VMap [(KStr [107%N] true, VInt U64 1)]; VMap [(KStr [107%N] false, VNone)];
+                   VMap [(KStr [107%N] true, VInt I128 1)]] [SegName [107%N]]
+  = ROk (VMap [(KInt U64 1, VArr [VMap [(KStr [107%N] true, VInt U64 1)]; VMap [(KStr [107%N] true, VInt I128 1)]])]).
 Proof. vm_compute. reflexivity. Qed.
 Example C16_ex_split_empty : str_split [97%N; 98%N] [] = [[]; [97%N]; [98%N]; []].
 Proof. vm_compute. reflexivity. Qed.
